@@ -175,8 +175,12 @@ func (h *H) fail(sig, what string, c *tcase, o outcome) {
 
 // confirm re-runs a suspected violation three times in fresh processes.
 func (h *H) confirm(c *tcase, big bool, pred func(outcome) bool) bool {
-	rs := replayFresh(h.e.Dir, c, big)
-	if len(rs) < 3 {
+	return h.confirmN(c, big, 3, pred)
+}
+
+func (h *H) confirmN(c *tcase, big bool, n int, pred func(outcome) bool) bool {
+	rs := replayN(h.e.Dir, c, big, n)
+	if len(rs) < n {
 		return false
 	}
 	for _, r := range rs {
@@ -199,16 +203,43 @@ func (h *H) triple(c *tcase, big bool) (outcome, bool) {
 		// (a pattern not confirmed yet is still re-run in fresh processes, with their own grace period)
 		leakGrace = 100 * time.Millisecond
 	}
-	o, done := guarded(in, allowFor(c), func() outcome { return runCase(c, big) })
-	if !done {
-		if h.confirm(c, big, func(r outcome) bool { return r.Class == "timeout" }) {
-			h.fail("timeout", fmt.Sprintf("decoding %d bytes did not finish within %v (three fresh-process re-runs agree)", in, time.Duration(allowFor(c)(in, o.N))), c, o)
-			h.aborted = true // the stuck goroutine cannot be stopped; end the run here
+	var o outcome
+	timedOut := func(r outcome) bool { return r.Class == "timeout" || r.Class == "hang" }
+	if c.Tight {
+		// bodies built to cost time run in a process of their own from the start: nothing of
+		// ours runs beside them, and a run that exceeds its CPU allowance ends itself
+		rs := replayN(h.e.Dir, c, big, 1)
+		if len(rs) != 1 || rs[0].Class == "crash" {
+			return outcome{}, false
+		}
+		o = rs[0]
+		if timedOut(o) {
+			if h.confirmN(c, big, 2, timedOut) {
+				h.fail("timeout", fmt.Sprintf("decoding %d bytes used %v of CPU time (wall %v) without finishing; the allowance is %v of CPU time (three fresh processes, one after the other, agree)",
+					in, time.Duration(o.CPUNS), time.Duration(o.DurNS), time.Duration(allowFor(c)(in, o.N))), c, o)
+			}
 			return o, false
 		}
-		// not reproducible: wait for the straggler, then go on
-		time.Sleep(2 * time.Second)
-		return o, false
+	} else {
+		var done bool
+		o, done = guarded(in, allowFor(c), func() outcome { return runCase(c, big) })
+		if timedOut(o) {
+			if !done {
+				// let the straggler finish, so that nothing of ours runs beside the re-runs
+				time.Sleep(100 * time.Millisecond)
+				for w := 0; w < 1200 && curStart.Load() != 0; w++ {
+					time.Sleep(100 * time.Millisecond)
+				}
+			}
+			if h.confirmN(c, big, 3, timedOut) {
+				h.fail("timeout", fmt.Sprintf("decoding %d bytes used %v of CPU time (wall %v) without finishing; the allowance is %v of CPU time (three fresh processes, one after the other, agree)",
+					in, time.Duration(o.CPUNS), time.Duration(o.DurNS), time.Duration(allowFor(c)(in, o.N))), c, o)
+				if curStart.Load() != 0 {
+					h.aborted = true // the stuck goroutine cannot be stopped; end the run here
+				}
+			}
+			return o, false
+		}
 	}
 	first := ""
 	if len(c.Names) > 0 {
@@ -1486,7 +1517,7 @@ func main() {
 				"max_ns_per_byte":         h.maxNsByte,
 				"max_total_alloc":         h.maxAlloc,
 				"max_alloc_over_allowed":  h.maxRatio,
-				"watchdog":                "5 s + 50 us per input or output byte; a suspected violation is re-run three times in fresh processes",
+				"watchdog":                "CPU time (user+system of the decoding process), 5 s + 50 us per input or output byte; wall-clock only as a hang guard (90 s without output and without CPU use); a suspected violation is re-run three times in fresh processes, one after the other, each judged by its own CPU time",
 				"alloc_allowance":         "StreamBudget(rawLen) + 4*|out| + 512 KiB + 128 KiB*stages, against the TotalAlloc delta",
 				"goroutine_grace":         "2 s after Close",
 				"run_cut_short_by_a_hang": h.aborted,
@@ -1494,7 +1525,7 @@ func main() {
 				"header_sweep":            h.sweep,
 				"max_live_heap_growth":    h.maxLive,
 				"live_heap_allowance":     "StreamBudget(rawLen) + 1 MiB, against HeapAlloc after forced collections sampled every 2 ms during the decode (multi-segment JBIG2 cases)",
-				"tight_watchdog":          "0.75 s + 5 us per byte for CCITT bodies built from chosen 2-D codes",
+				"tight_watchdog":          "0.75 s + 5 us per byte of CPU time for bodies built to cost time (CCITT code storms, progressive scan scripts, JBIG2 region storms); they run in a process of their own",
 				"failing_cases_by_signature (12 of each are recorded)": h.perSig,
 			},
 		})
